@@ -10,12 +10,47 @@ import OV.Drivers.Loop
     `C01 live <func-sexp>`     → live-in set of the function body (analysis tie)
     `C01 export (withdefaults (defaults (NAME TEXT|_)*) <func-sexp>)` → `ok <wf> <norefs|refs> <graph-sexp>` | `err …`:
                                   the main graph `to_model_proto()` builds from the function body
-    `C01 fragment <func-sexp>` → `straight` | `if` | `loop` | `nested` | `attrs` (attribute parameters: not covered) | `none`:
+    `C01 fragment <func-sexp>` → `straight` | `if` | `loop` | `nested` | `attrval` (an attribute parameter read as a value: outside) |
+                                  `attrs` (an attribute parameter re-bound outside straight-line code: `hattr` fails) | `none`:
                                   the refinement theorem that covers it
     `C01 stable <func-sexp>`   → whether every liveness fixpoint of the model was reached within its fuel
                                   (hypothesis of `liveness_sound`) -/
 namespace OV.Drivers.C01
 open OV.C01
+
+mutual
+/-- names read in value position (keyword arguments of operator calls not included) -/
+def valVars : Expr → List Name
+  | .var x => [x]
+  | .lit _ => []
+  | .call _ _ _ args _ => valVarsL args
+  | .binop _ a b => valVars a ++ valVars b
+  | .unop _ a => valVars a
+  | .cmp _ a b => valVars a ++ valVars b
+  | .subscript base _ => valVars base
+  | .other us => us
+def valVarsL : List Expr → List Name
+  | [] => []
+  | e :: es => valVars e ++ valVarsL es
+end
+
+mutual
+def valStmt : Stmt → List Name
+  | .assign _ e => valVars e
+  | .par _ es => valVarsL es
+  | .tuple _ e => valVars e
+  | .badAssign _ e => valVars e
+  | .ite c t e => valVars c ++ valBlock t ++ valBlock e
+  | .for_ _ _ b body => valVars b ++ valBlock body
+  | .while_ c body => valVars c ++ valBlock body
+  | .brk c => valVars c
+  | .ret es _ => valVarsL es
+  | .skip => []
+  | .unsupported => []
+def valBlock : List Stmt → List Name
+  | [] => []
+  | st :: ss => valStmt st ++ valBlock ss
+end
 
 def handle (args : List String) : String :=
   match args with
@@ -63,8 +98,14 @@ def handle (args : List String) : String :=
       match decProgram e with
       | none => "bad-input"
       | some f =>
-        if f.params.any (fun p => match p with | .attr _ _ => true | .tensor _ => false) then "attrs"
+        -- the name of an attribute parameter read in value position (not as `op.Foo(…, k=alpha)`): the plain-Python side of the model gives
+        -- it no value, so the theorems say nothing about the program (their evaluation hypothesis fails)
+        let attrval := (attrParams f.params).any (fun p => (valBlock f.body).contains p)
+        -- hypothesis `hattr` of stages 2-4: no attribute parameter is re-bound in the body
+        let rebound := (attrParams f.params).any (fun p => (targetsBlock f.body).contains p)
+        if attrval then "attrval"
         else if straightLine f.body then "straight"
+        else if rebound then "attrs"
         else if ifLine f.body then "if"
         else if forLine f.body then "loop"
         else if nestLine f.body then "nested"
